@@ -77,8 +77,8 @@ def node_norm(nd):
         return {"t": "d"}
     if t == "l":
         return {"t": "l", "to": [str(x) for x in nd["to"]]}
-    if t == "g":
-        return {"t": "g"}
+    if t in ("g", "gd"):
+        return {"t": t}
     return {"t": "f", "c": str(nd["c"]), "x": bool(nd["x"])}
 
 
@@ -319,7 +319,9 @@ def _exec_step(job, case, st, done_steps, res, head_tree):
     # ---- property clause UnsafeRefused, on the real directory
     for p in fs:
         if p[:2] == ("p", "repo") and len(p) > 2 and p[2] != ".git":
-            for c in p[2:]:
+            for j, c in enumerate(p[2:]):
+                if c == ".git" and j == len(p) - 3 and j > 0 and fs[p].get("c") == "M":
+                    continue        # the .git file of a submodule placeholder
                 if unsafe.get((c, prot["ntfs"], prot["hfs"]), c not in job["known_comps"]):
                     viol.append({"sig": f"{SITE[op]}|UnsafeRefused|element {c!r} materialised ntfs={int(prot['ntfs'])} hfs={int(prot['hfs'])}",
                                  "step": i, "what": f"{ENTRY[op]} materialised {'/'.join(p[2:])!r} after: {seqtxt}"})
@@ -487,8 +489,8 @@ def node4(nd):
         return {"t": "d", "c": "", "x": False, "to": []}
     if t == "l":
         return {"t": "l", "c": "", "x": False, "to": list(nd["to"])}
-    if t == "g":
-        return {"t": "g", "c": "", "x": False, "to": []}
+    if t in ("g", "gd"):
+        return {"t": t, "c": "", "x": False, "to": []}
     return {"t": "f", "c": nd["c"] + ("!" + nd["perm"] if "perm" in nd else ""), "x": bool(nd["x"]), "to": []}
 
 
